@@ -261,7 +261,7 @@ func candidates(w *World) []*World {
 					return true
 				})
 			}
-			if target.K == KOp && len(target.Args) > 2 {
+			if target.K == KOp && len(target.Args) > 2 && variadic(target.Name) {
 				for ci := range target.Args {
 					ci := ci
 					add(func(c *World) bool {
@@ -516,4 +516,14 @@ func simplerVals(v V) []V {
 		}
 	}
 	return out
+}
+
+// variadic: operators that accept any number (>= 2) of operands, so dropping
+// one keeps the program well-formed.
+func variadic(name string) bool {
+	switch builtinNames[name] {
+	case "add", "sub", "mul", "div", "mod", "and", "or", "xor", "eq":
+		return true
+	}
+	return !IsBuiltin(name)
 }
